@@ -8,7 +8,7 @@ from mc.core import Acc
 PROP = 'C14'
 LEVEL = 'exploration'
 ENGINE = 'E1'
-RULE = ('smooth/median: every array over {0,1,3}^n (n<=N) x every width x flags; uniq: every non-decreasing array over '
+RULE = ('whole-array medians also of 2-D and 3-D arrays (odd/even first dimension x odd/even element count); smooth/median: every array over {0,1,3}^n (n<=N) x every width x flags; uniq: every non-decreasing array over '
         '{0,1,2} and every array with every sorting permutation as index; rebin: every 1-3-D shape over a dimension menu '
         'x every per-axis target incl. inadmissible ones x sample. A case is non-trivial when the oracle result differs '
         'from the plain input (smoothing/median changes something, uniq has >1 run or a non-identity index, rebin changes shape or must raise). '
@@ -110,6 +110,9 @@ def tasks(tier):
     for shape in ([(3, 4), (4, 3)] if T else [(3, 4)]):
         for first in itertools.product((0, 1, 2), repeat=2 if T else 4):
             t.append({'f': 'median2', 'shape': shape, 'first': list(first), 'alpha': [0, 1, 2] if T else [0, 2]})
+    # whole-array medians of N-D arrays: odd/even first dimension x odd/even element count
+    for shape in [(1, 6), (6, 1), (5, 2), (2, 3), (3, 2), (1, 5), (3, 1), (2, 2, 2), (3, 2, 5), (1, 1, 4), (3, 4, 1), (5, 3)]:
+        t.append({'f': 'medianND', 'shape': list(shape)})
     for n in range(1, (9 if T else 8) + 1):
         t.append({'f': 'uniq', 'n': n})
     for n in range(1, (6 if T else 5) + 1):
@@ -186,7 +189,10 @@ def _check_case(case):
         if sig.tobytes() != keep.tobytes():
             bad.append(('smooth:input-modified', ''))
     elif f == 'median':
-        arr = apply_layout(np.array(case['x'], dtype=float), L)
+        arr = np.array(case['x'], dtype=float)
+        if case.get('shape'):
+            arr = arr.reshape(case['shape'])      # the median of a whole N-D array is the median of all its elements
+        arr = apply_layout(arr, L)
         got = pydl.median(arr, even=case['even'])
         exp = o_median_all(case['x'], case['even'])
         if not (np.ndim(got) == 0 and float(got) == exp):
@@ -323,6 +329,20 @@ def run_task(task):
             if r * c <= 9:
                 for even in (False, True):
                     _do(acc, {'f': 'median', 'x': list(flat), 'even': even}, len(set(flat)) > 1)
+            if r * c <= 12:
+                for even in (False, True):
+                    _do(acc, {'f': 'median', 'x': list(flat), 'even': even, 'shape': [r, c]}, len(set(flat)) > 1)
+    elif f == 'medianND':
+        shape = task['shape']
+        n = int(np.prod(shape))
+        if n <= 8:
+            xs = itertools.product((0, 1, 3), repeat=n)
+        else:
+            base = [(7 * i) % n for i in range(n)] if n % 7 else list(range(n))
+            xs = [base[k:] + base[:k] for k in range(n)] + [sorted(base), sorted(base, reverse=True)]
+        for x in xs:
+            for even in (False, True):
+                _do(acc, {'f': 'median', 'x': list(x), 'even': even, 'shape': list(shape)}, len(set(x)) > 1)
     elif f == 'uniq':
         n = task['n']
         for x in itertools.combinations_with_replacement((0, 1, 2), n):
